@@ -225,7 +225,7 @@ package codegen
 //
 //@ func evalBinaryOp
 //@   mode bv
-//@   tags C14 C06
+//@   tags C14
 //@   ensures [i32-overflow-not-folded] op == ir.BinaryMultiply && is(left, ir.LiteralI32) && is(right, ir.LiteralI32) && (int64(int32(left.(ir.LiteralI32))) * int64(int32(right.(ir.LiteralI32))) < -2147483648 || int64(int32(left.(ir.LiteralI32))) * int64(int32(right.(ir.LiteralI32))) > 2147483647) ==> isnil(result)
 //@   ensures [div-by-zero-not-folded] op == ir.BinaryDivide && is(left, ir.LiteralI32) && is(right, ir.LiteralI32) && int32(right.(ir.LiteralI32)) == 0 ==> isnil(result)
 //@   ensures [unsupported-not-folded] op != ir.BinaryAdd && op != ir.BinarySubtract && op != ir.BinaryMultiply && op != ir.BinaryDivide ==> isnil(result)
